@@ -60,6 +60,7 @@ EXPECTED_PROBES = ['pass_content_over', 'pass_content_within', 'pass_content_equ
                    'restart', 'restart_files_missing', 'restart_files_back', 'own_row_pending_after_start', 'own_reensured']
 
 MIB = be.MIB
+_DROP = object()
 # strict reading switch: make the network pass deleting the descriptor blob of a *stored* stream a violation
 STRICT_STREAM_SD = os.environ.get('VERIF_C19_STRICT_SD', '1') == '1'
 
@@ -130,17 +131,117 @@ def gen(run_seed, tier):
                 ops.append({'op': 'age', 'dt': r.choice([1, 60, 3600, 86400, 30 * 86400])})
         ops.append({'op': 'clean', 'content': _limit_spec(r, False), 'network': _limit_spec(r, True),
                     'again': r.random() < 0.5, 'via': 'loop' if r.random() < 0.2 else 'direct'})
-    return {'family': 'real' if real else 'synthetic', 'real': real, 'ops': ops}
+    sc = {'family': 'real' if real else 'synthetic', 'real': real, 'ops': ops}
+    _feature_recover(sc, run_seed)
+    _feature_unattached(sc, run_seed, profile, max_blobs)
+    _feature_shared(sc, run_seed)
+    _feature_claimed(sc, run_seed)
+    return sc
+
+
+# Each feature below draws from its OWN stream, so the base history above is the same as before the
+# feature existed and the features are independent of each other.
+
+def _positions(ops):
+    stores = [i for i, op in enumerate(ops) if op['op'] in ('own', 'dl')]
+    cleans = [i for i, op in enumerate(ops) if op['op'] == 'clean']
+    return stores, cleans
+
+
+def _feature_recover(sc, run_seed):
+    """Daemon-like starts: streams carry their claim (as after a publish / a download from a claim) and
+    every start after the first runs the real StreamManager.initialize_from_database(), i.e. the
+    start-up recovery of streams whose descriptor blob file is missing; descriptor blob files get lost
+    between two starts."""
+    r = stream('C19.gen.recover', run_seed)
+    if r.random() >= 0.35:
+        return
+    ops = sc['ops']
+    sc['daemon'] = True
+    for op in ops:
+        if op['op'] == 'restart' and r.random() < 0.35:
+            op['lose_sd'] = r.choice(['own', 'all', 'some'])
+    stores, cleans = _positions(ops)
+    if stores and cleans and stores[0] < cleans[-1] and r.random() < 0.8:
+        pos = r.randint(stores[0] + 1, cleans[-1])
+        ops.insert(pos, {'op': 'restart', 'park': 'none', 'frac': round(r.random(), 3), 'tag': r.getrandbits(16),
+                         'lose_sd': r.choice(['own', 'own', 'all', 'some'])})
+
+
+def _feature_unattached(sc, run_seed, profile, max_blobs):
+    """A publish interrupted before store_stream: own blobs that belong to no stream."""
+    r = stream('C19.gen.unattached', run_seed)
+    if r.random() >= 0.15:
+        return
+    ops = sc['ops']
+    _stores, cleans = _positions(ops)
+    if not cleans:
+        return
+    k = r.randint(1, max_blobs)
+    ops.insert(r.randint(0, r.choice(cleans)),
+               {'op': 'own', 'sizes': [_size(r, profile) for _ in range(k)],
+                'src': r.choice([300_000, MIB + 5, 2 * MIB - 1, 3 * MIB, 4 * MIB + 77]), 'file': False, 'stored': False})
+
+
+def _feature_shared(sc, run_seed):
+    """A second downloaded stream whose (valid) descriptor names the data blobs of an earlier one."""
+    r = stream('C19.gen.shared', run_seed)
+    if r.random() >= 0.2:
+        return
+    ops = sc['ops']
+    dls = [i for i, op in enumerate(ops) if op['op'] == 'dl' and 'share' not in op]
+    cleans = [i for i, op in enumerate(ops) if op['op'] == 'clean']
+    if not dls or not cleans:
+        return
+    j = r.randrange(len(dls))
+    i = dls[j]
+    if i >= cleans[-1]:
+        return
+    part = r.random() < 0.25
+    k = len(ops[i]['sizes'])
+    ops.insert(r.randint(i + 1, cleans[-1]),
+               {'op': 'dl', 'share': j, 'sizes': list(ops[i]['sizes']), 'src': ops[i]['src'],
+                'finished': sorted(r.sample(range(k), r.randint(0, k))) if part else None,
+                'file': r.random() < 0.8, 'sd_finished': True})
+
+
+def _feature_claimed(sc, run_seed):
+    """Before a stream's data is downloaded, another valid descriptor naming the same blob hashes with
+    other lengths was stored (a stream that was started and whose data never arrived)."""
+    r = stream('C19.gen.claimed', run_seed)
+    if r.random() >= 0.2:
+        return
+    dls = [op for op in sc['ops'] if op['op'] == 'dl' and 'share' not in op]
+    if not dls:
+        return
+    op = r.choice(dls)
+    op['claimed'] = {'mode': r.choice(['under', 'under', 'over', 'mixed']), 'file': r.random() < 0.85}
 
 
 def shrink(sc):
     if sc.get('real'):
         yield dict(sc, real=False, family='synthetic')
+    if sc.get('daemon'):
+        yield dict(sc, daemon=False)
     for i, op in enumerate(sc['ops']):
         def repl(**kw):
             ops = list(sc['ops'])
-            ops[i] = dict(op, **kw)
+            new = dict(op, **kw)
+            for key, val in kw.items():
+                if val is _DROP:
+                    new.pop(key, None)
+            ops[i] = new
             return dict(sc, ops=ops)
+        if 'lose_sd' in op:
+            yield repl(lose_sd=_DROP)
+            if op['lose_sd'] != 'all':
+                yield repl(lose_sd='all')
+        if 'claimed' in op:
+            yield repl(claimed=_DROP)
+            if op['claimed'].get('mode') == 'mixed':
+                yield repl(claimed=dict(op['claimed'], mode='under'))
+        if 'share' in op:
+            yield repl(share=_DROP)
         if op['op'] == 'clean':
             if op.get('again'):
                 yield repl(again=False)
@@ -185,12 +286,16 @@ def shrink(sc):
 # ---------------------------------------------------------------------------------------------------
 
 class Model:
-    """Usage per class and removable sets recomputed from a table snapshot (harness' own SQL)."""
+    """The harness' own account of one moment: per class the bytes that are really on disk (size of the
+    blob file, once per distinct blob, ownership from the harness' record of what the user published)
+    and the removable sets, from a table snapshot (own SQL) plus the directory listing.  The product's
+    reading of the same tables (one term per (blob, stream) pair, `blob_length` and `is_mine` columns,
+    own blobs outside any stream counted as network) is kept next to it only to name the input class in
+    which the two differ."""
 
-    def __init__(self, snap, published=frozenset()):
+    def __init__(self, snap, published=frozenset(), sizes=None):
+        sizes = sizes or {}
         self.rows = {h: (int(l), st, int(m), a) for h, l, st, m, a in snap['blob']}
-        # ground truth kept by the harness: hashes of blobs the user published (never read back from the
-        # `is_mine` column, which is product state); the usage classes below follow the product's flag
         self.published = published
         self.flag_lost = sorted(h for h in published if h in self.rows and not self.rows[h][2])
         self.sd = {sd for _s, sd in snap['stream']}
@@ -200,40 +305,80 @@ class Model:
         for s, h, _pos in snap['stream_blob']:
             in_stream.setdefault(h, set()).add(s)
         self.shared = sorted(h for h, ss in in_stream.items() if len(ss) > 1)
-        self.content = self.own = self.network = 0
+        self.true_len = {}
+        self.content = self.own = self.network = 0            # bytes really held, per class
+        self.p_content = self.p_own = self.p_network = 0      # the product's reading of the tables
+        self.own_unattached = 0
+        self.shared_finished = 0
+        self.length_differs = {'content': 0, 'network': 0}
         self.rem_content = set()       # foreign finished content blobs of streams with a file row
         self.rem_content_sd = set()    # descriptor blobs of foreign streams with a file row
         self.rem_network = set()       # foreign finished blobs outside any stream
         self.stream_sd_finished = set()  # foreign finished descriptor blobs of stored streams
         for s, sd in sd_of.items():
             row = self.rows.get(sd)
-            if row is None or row[2]:
+            if row is None or row[2] or sd in published:
                 continue
             if s in with_file:
                 self.rem_content_sd.add(sd)
             if row[1] == 'finished':
                 self.stream_sd_finished.add(sd)
-        for h, (length, status, mine, _a) in self.rows.items():
+        for h, (db_len, status, flag, _a) in self.rows.items():
             if h in self.sd or status != 'finished':
                 continue
+            mine = bool(flag) or h in published
+            length = self.true_len[h] = sizes.get(h, db_len)
+            streams = in_stream.get(h, ())
+            pairs = max(1, len(streams))
+            if flag:
+                self.p_own += db_len * pairs
+            if streams:
+                if not flag:
+                    self.p_content += db_len * pairs
+            else:
+                self.p_network += db_len
+            if len(streams) > 1:
+                self.shared_finished += 1
             if mine:
                 self.own += length
-            if h in in_stream:
+            if streams:
+                if length != db_len:
+                    self.length_differs['content'] += 1
                 if not mine:
                     self.content += length
-                    if in_stream[h] & with_file:
+                    if streams & with_file:
                         self.rem_content.add(h)
+            elif mine:
+                self.own_unattached += length
+                if length != db_len:
+                    self.length_differs['content'] += 1
             else:
+                if length != db_len:
+                    self.length_differs['network'] += 1
                 self.network += length
-                if not mine:
-                    self.rem_network.add(h)
+                self.rem_network.add(h)
 
     def mb(self, h):
-        return self.rows[h][0] // MIB
+        return self.true_len.get(h, self.rows[h][0]) // MIB
 
     def is_own(self, h):
         row = self.rows.get(h)
         return h in self.published or bool(row is not None and row[2])
+
+    def input_class(self, cls):
+        """Which generated input separates the product's reading of this class from the bytes really held."""
+        out = []
+        if cls == 'network':
+            if self.own_unattached:
+                out.append('own_unattached')
+            if self.length_differs['network']:
+                out.append('claimed_length')
+        else:
+            if self.shared_finished:
+                out.append('shared_blob')
+            if self.length_differs['content']:
+                out.append('claimed_length')
+        return out
 
     @property
     def content_used_own_reading(self):
@@ -246,6 +391,10 @@ class Model:
     @property
     def network_used(self):
         return self.network // MIB
+
+    @property
+    def product_reading(self):
+        return self.p_content // MIB + self.p_own // MIB, self.p_network // MIB
 
 
 def _resolve(spec, used, used_sum, network):
@@ -284,11 +433,15 @@ def execute(scenario, keep_trace=False):
     parked_dir = os.path.join(dirs.root, 'parked')
     os.makedirs(parked_dir)
     published = set()            # harness memory: every hash that came out of a publish by the user
+    own_streams = set()          # stream hashes of the streams the user published
+    synthetic = set()            # hashes whose bytes are never materialised (sparse files of the right size)
+    dl_mem = []                  # downloaded streams, for descriptors that name the same blobs again
+    daemon = bool(scenario.get('daemon'))
     real = bool(scenario.get('real'))
     if real:
         run.probes['real_bytes_run'] += 1
     state = {'uid': 0, 'cls': None, 'deleted': None, 'rounds': 0, 'stores_since_round': 0, 'passes': [],
-             'next': 0, 'boots': 0, 'parked': False, 'unparked': False}
+             'next': 0, 'boots': 0, 'parked': False, 'unparked': False, 'lost_in_recovery': set(), 'sd_lost': 0}
     limits = {'content': 0, 'network': 0}
 
     def uid():
@@ -302,14 +455,39 @@ def execute(scenario, keep_trace=False):
         conf = be.make_config(dirs)
 
         async def driver(loop):
-            before_boot = {h: st for h, _l, st, _m, _a in be.db_snapshot(dirs.db_path)['blob']}
+            before_rows = be.db_snapshot(dirs.db_path)['blob']
+            before_boot = {h: st for h, _l, st, _m, _a in before_rows}
+            flagged_before = {h for h, _l, _st, m, _a in before_rows if m}
             storage = await be.open_storage(loop, conf, dirs)
             bm = BlobManager(loop, dirs.blobs, storage, conf)
             await bm.setup()
             tracker = be.CompletionTracker(bm)
             state['boots'] += 1
+            sm = None
+            if daemon and state['boots'] > 1:
+                # the rest of a daemon start: the real stream manager loads the file list and recovers the
+                # streams whose descriptor blob is not on disk (observed, not altered)
+                from lbry.stream.stream_manager import StreamManager
+                recovered = []
+                orig_recover = storage.recover_streams
+
+                async def observed_recover(descriptors_and_sds, download_directory):
+                    recovered.extend(d.stream_hash for d, _sd, _fee in descriptors_and_sds)
+                    return await orig_recover(descriptors_and_sds, download_directory)
+                storage.recover_streams = observed_recover
+                sm = StreamManager(loop, conf, bm, None, storage, None)
+                await sm.initialize_from_database()
+                await tracker.settle()
+                run.probes['daemon_start'] += 1
+                if recovered:
+                    run.probes['recovery_ran'] += 1
+                    if own_streams & set(recovered):
+                        run.probes['own_stream_recovered'] += 1
+                    flagged_after = {h for h, _l, _st, m, _a in be.db_snapshot(dirs.db_path)['blob'] if m}
+                    state['lost_in_recovery'] |= {h for h in published if h in flagged_before and h not in flagged_after}
+                run.ev('daemon-start', state['boots'], len(recovered), len(own_streams & set(recovered)))
             if state['boots'] > 1:
-                boot_model = Model(be.db_snapshot(dirs.db_path), frozenset(published))
+                boot_model = Model(be.db_snapshot(dirs.db_path), frozenset(published), be.dir_sizes(dirs.blobs))
                 run.probes['restart'] += 1
                 if state['parked']:
                     run.probes['restart_files_missing'] += 1
@@ -343,7 +521,8 @@ def execute(scenario, keep_trace=False):
             async def observed_clean_class(is_network_blob=False):
                 cls = 'network' if is_network_blob else 'content'
                 pre = be.db_snapshot(dirs.db_path)
-                pre_files = set(be.list_dir(dirs.blobs))
+                pre_sizes = be.dir_sizes(dirs.blobs)
+                pre_files = set(pre_sizes)
                 state['deleted'] = []
                 state['cls'] = cls
                 try:
@@ -351,9 +530,11 @@ def execute(scenario, keep_trace=False):
                 finally:
                     deleted, state['deleted'] = state['deleted'], None
                 post = be.db_snapshot(dirs.db_path)
-                post_files = set(be.list_dir(dirs.blobs))
+                post_sizes = be.dir_sizes(dirs.blobs)
+                post_files = set(post_sizes)
                 own = frozenset(published)
-                judge(cls, limits[cls], Model(pre, own), Model(post, own), deleted, ret, pre_files, post_files)
+                judge(cls, limits[cls], Model(pre, own, pre_sizes), Model(post, own, post_sizes), deleted, ret,
+                      pre_files, post_files)
                 state['passes'].append((cls, len(deleted)))
                 return ret
             dsm._clean = observed_clean_class
@@ -369,22 +550,44 @@ def execute(scenario, keep_trace=False):
             dsm.clean = observed_clean
 
             # ---- stores ---------------------------------------------------------------------------------
-            def placeholder(blob_hash):
+            def placeholder(blob_hash, size):
+                # a sparse file of the blob's length: everything the product can observe about it (stat,
+                # BlobFile's length check, the start-up scan) is as for the real blob
+                synthetic.add(blob_hash)
                 path = os.path.join(dirs.blobs, blob_hash)
                 if not os.path.exists(path):
-                    with open(path, 'wb') as f:
-                        f.write(b'x')
+                    be.sparse_file(path, size)
 
-            def synthetic_descriptor(sizes, mine):
-                n = uid()
+            def descriptor_from(name, key, triples, term_iv, mine, lengths=None, blob_dir=None):
+                """A valid descriptor naming the blobs `triples` = [(hash, length, iv)], optionally claiming
+                other lengths.  Returns (descriptor with sd_hash set, sd blob bytes, now)."""
                 now = _time.time()
-                infos = [BlobInfo(i, s, '%032x' % (n * 1000 + i), now, be.label_hash('c19', n, i), mine)
-                         for i, s in enumerate(sizes)]
-                infos.append(BlobInfo(len(infos), 0, '%032x' % (n * 1000 + 999), now, None, mine))
-                desc = StreamDescriptor(loop, dirs.blobs, f'stream{n}', '%032x' % n, f'stream{n}', infos)
+                infos = [BlobInfo(i, lengths[i] if lengths else length, iv, now, h, mine)
+                         for i, (h, length, iv) in enumerate(triples)]
+                infos.append(BlobInfo(len(infos), 0, term_iv, now, None, mine))
+                desc = StreamDescriptor(loop, blob_dir or dirs.blobs, name, key, name, infos)
                 sd_json = desc.as_json()
                 desc.sd_hash = desc.calculate_sd_hash()
                 return desc, sd_json, now
+
+            def synthetic_descriptor(sizes, mine):
+                n = uid()
+                triples = [(be.label_hash('c19', n, i), s, '%032x' % (n * 1000 + i)) for i, s in enumerate(sizes)]
+                mem = {'key': '%032x' % n, 'triples': triples, 'term_iv': '%032x' % (n * 1000 + 999), 'bytes': None}
+                desc, sd_json, now = descriptor_from(f'stream{n}', mem['key'], triples, mem['term_iv'], mine)
+                return desc, sd_json, now, mem
+
+            def claimed_lengths(spec, triples):
+                mode = spec.get('mode', 'under')
+                out = []
+                for i, (_h, length, _iv) in enumerate(triples):
+                    under = mode == 'under' or (mode == 'mixed' and i % 2 == 0)
+                    out.append(16 if under else 2 * MIB)
+                return out
+
+            async def maybe_claim(sd_hash):
+                if daemon:
+                    await be.save_stream_claim(storage, sd_hash, uid())
 
             async def store_own(op, n):
                 run.probes['own_stream'] += 1
@@ -402,11 +605,11 @@ def execute(scenario, keep_trace=False):
                     published.update(b.blob_hash for b in desc.blobs[:-1])
                     published.add(desc.sd_hash)
                 else:
-                    desc, sd_json, now = synthetic_descriptor(op['sizes'], True)
+                    desc, sd_json, now, _mem = synthetic_descriptor(op['sizes'], True)
                     published.update(b.blob_hash for b in desc.blobs[:-1])
                     published.add(desc.sd_hash)
                     for info in desc.blobs[:-1]:
-                        placeholder(info.blob_hash)
+                        placeholder(info.blob_hash, info.length)
                     await storage.add_blobs(*[(i.blob_hash, i.length, now, 1) for i in desc.blobs[:-1]], finished=True)
                     await be.download_blob(bm, sd_json, is_mine=True)
                     await tracker.settle()
@@ -415,32 +618,78 @@ def execute(scenario, keep_trace=False):
                         if op.get('file', True):
                             await storage.save_published_file(desc.stream_hash, f'own{n}.bin', dirs.downloads, 0)
                     nblobs = len(op['sizes'])
-                if not op.get('stored', True):
+                if op.get('stored', True):
+                    own_streams.add(desc.stream_hash)
+                    if op.get('file', True):
+                        await maybe_claim(desc.sd_hash)
+                else:
                     run.probes['own_bare_blob'] += 1
+                    run.probes['publish_interrupted'] += 1
                 run.ev('own', n, nblobs, op.get('stored', True), op.get('file', True), short(desc.sd_hash))
 
             async def store_dl(op, n):
                 with_file = op.get('file', True)
                 if not with_file:
                     run.probes['stream_without_file'] += 1
+                src = dl_mem[op['share'] % len(dl_mem)] if op.get('share') is not None and dl_mem else None
+                spec = op.get('claimed')
                 if real:
-                    path = os.path.join(dirs.remote, f'src{uid()}.bin')
-                    with open(path, 'wb') as f:
-                        f.write(be.det_bytes(('dl', n), op['src']))
-                    rdesc, rblobs = await be.make_remote_stream(loop, dirs.remote, path)
-                    k = len(rdesc.blobs) - 1
+                    if src is None:
+                        path = os.path.join(dirs.remote, f'src{uid()}.bin')
+                        with open(path, 'wb') as f:
+                            f.write(be.det_bytes(('dl', n), op['src']))
+                        rdesc, rblobs = await be.make_remote_stream(loop, dirs.remote, path)
+                        mem = {'key': rdesc.key, 'term_iv': rdesc.blobs[-1].iv, 'bytes': rblobs,
+                               'triples': [(b.blob_hash, b.length, b.iv) for b in rdesc.blobs[:-1]]}
+                        dl_mem.append(mem)
+                        sd_hash, blobs = rdesc.sd_hash, rblobs
+                    else:   # another valid descriptor (other stream name) naming the same data blobs
+                        run.probes['shared_stream'] += 1
+                        mem = src
+                        vdesc, sd_json, _now = descriptor_from(f'shared{uid()}', mem['key'], mem['triples'],
+                                                               mem['term_iv'], False, blob_dir=dirs.remote)
+                        sd_hash = vdesc.sd_hash
+                        blobs = {h: mem['bytes'][h] for h, _l, _iv in mem['triples']}
+                        blobs[sd_hash] = sd_json
+                    k = len(mem['triples'])
+                    if spec:
+                        run.probes['claimed_length_first'] += 1
+                        edesc, esd, _now = descriptor_from(f'claimed{uid()}', mem['key'], mem['triples'], mem['term_iv'],
+                                                           False, lengths=claimed_lengths(spec, mem['triples']),
+                                                           blob_dir=dirs.remote)
+                        await be.download_stream(loop, bm, storage, edesc.sd_hash, {edesc.sd_hash: esd}, take=set(),
+                                                 with_file=spec.get('file', True))
+                        await tracker.settle()
+                        if spec.get('file', True):
+                            await maybe_claim(edesc.sd_hash)
                     take = None
                     if op.get('finished') is not None:
                         take = {i for i in op['finished'] if i < k}
                         if len(take) < k:
                             run.probes['partial_stream'] += 1
-                    desc = await be.download_stream(loop, bm, storage, rdesc.sd_hash, rblobs, take=take,
-                                                    with_file=with_file)
+                    desc = await be.download_stream(loop, bm, storage, sd_hash, blobs, take=take, with_file=with_file)
                     await tracker.settle()
                     nfin = k if take is None else len(take)
                 else:
-                    desc, sd_json, now = synthetic_descriptor(op['sizes'], False)
-                    k = len(op['sizes'])
+                    if src is None:
+                        desc, sd_json, now, mem = synthetic_descriptor(op['sizes'], False)
+                        dl_mem.append(mem)
+                    else:
+                        run.probes['shared_stream'] += 1
+                        mem = src
+                        desc, sd_json, now = descriptor_from(f'shared{uid()}', mem['key'], mem['triples'],
+                                                             mem['term_iv'], False)
+                    k = len(mem['triples'])
+                    if spec:
+                        run.probes['claimed_length_first'] += 1
+                        edesc, esd, _now = descriptor_from(f'claimed{uid()}', mem['key'], mem['triples'], mem['term_iv'],
+                                                           False, lengths=claimed_lengths(spec, mem['triples']))
+                        await be.download_blob(bm, esd)
+                        await tracker.settle()
+                        await storage.store_stream(bm.get_blob(edesc.sd_hash, length=len(esd)), edesc)
+                        if spec.get('file', True):
+                            await storage.save_downloaded_file(edesc.stream_hash, None, None, 0.0)
+                            await maybe_claim(edesc.sd_hash)
                     if op.get('sd_finished', True):
                         await be.download_blob(bm, sd_json)
                         await tracker.settle()
@@ -452,14 +701,18 @@ def execute(scenario, keep_trace=False):
                     if len(fin) < k:
                         run.probes['partial_stream'] += 1
                     for i in fin:
-                        placeholder(desc.blobs[i].blob_hash)
+                        placeholder(mem['triples'][i][0], mem['triples'][i][1])
                     if fin:
-                        await storage.add_blobs(*[(desc.blobs[i].blob_hash, desc.blobs[i].length, now, 0) for i in fin],
+                        # the verified blob reports its real length, whatever a descriptor claimed
+                        await storage.add_blobs(*[(mem['triples'][i][0], mem['triples'][i][1], now, 0) for i in fin],
                                                 finished=True)
                     if with_file:
                         await storage.save_downloaded_file(desc.stream_hash, None, None, 0.0)
                     nfin = len(fin)
-                run.ev('dl', n, k, nfin, with_file, short(desc.sd_hash))
+                if with_file:
+                    await maybe_claim(desc.sd_hash)
+                run.ev('dl', n, k, nfin, with_file, short(desc.sd_hash), op.get('share') is not None and src is not None,
+                       spec.get('mode') if spec else None)
 
             async def store_net(op, n):
                 mine = 1 if op.get('mine') else 0
@@ -475,7 +728,7 @@ def execute(scenario, keep_trace=False):
                         h = be.label_hash('c19net', n, j)
                         if mine:
                             published.add(h)
-                        placeholder(h)
+                        placeholder(h, size)
                         await storage.add_blobs((h, size, _time.time(), mine), finished=True)
                 await tracker.settle()
                 run.ev('net', n, len(op['sizes']), mine)
@@ -487,7 +740,6 @@ def execute(scenario, keep_trace=False):
                 who = op.get('who', 'any')
                 cands = sorted(h for h, _l, st, _m, _a in snap['blob'] if st == 'finished' and h in files and
                                (who == 'any' or (h in published) == (who == 'own')))
-                lengths = {h: int(l) for h, l, _st, _m, _a in snap['blob']}
                 targets = []
                 for frac in op.get('picks', [0.0]):
                     if cands:
@@ -497,8 +749,11 @@ def execute(scenario, keep_trace=False):
                 done = []
                 for h in targets:
                     path = os.path.join(dirs.blobs, h)
-                    with open(path, 'rb') as f:
-                        data = f.read()
+                    size = os.path.getsize(path)
+                    data = b''
+                    if h not in synthetic:
+                        with open(path, 'rb') as f:
+                            data = f.read()
                     os.remove(path)                      # behind the daemon's back
                     bm.blobs.pop(h, None)                # nobody holds the old object any more
                     own = h in published
@@ -509,8 +764,8 @@ def execute(scenario, keep_trace=False):
                         _blob, outcome = await be.download_blob(bm, data)
                     else:
                         # synthetic length: same completion path without the bytes
-                        blob = bm.get_blob(h, lengths[h])
-                        placeholder(h)
+                        blob = bm.get_blob(h, size)
+                        placeholder(h, size)
                         bm.blob_completed(blob)
                         outcome = 'synthetic'
                     await tracker.settle()
@@ -523,16 +778,14 @@ def execute(scenario, keep_trace=False):
                 if state['rounds'] > 1 and state['stores_since_round']:
                     run.probes['stores_between_rounds'] += 1
                 state['stores_since_round'] = 0
-                m = Model(be.db_snapshot(dirs.db_path), frozenset(published))
-                if m.shared:
-                    run.notes.append('shared blob generated (outside the domain)')
-                    return False
+                m = Model(be.db_snapshot(dirs.db_path), frozenset(published), be.dir_sizes(dirs.blobs))
                 limits['content'] = _resolve(op['content'], m.content_used_own_reading, m.content_used_max_reading, False)
                 limits['network'] = _resolve(op['network'], m.network_used, m.network_used, True)
                 conf.blob_storage_limit = limits['content']
                 conf.network_storage_limit = limits['network']
                 run.ev('round', n, 'limits', limits['content'], limits['network'], 'used',
-                       m.content_used_own_reading, m.content_used_max_reading, m.network_used)
+                       m.content_used_own_reading, m.content_used_max_reading, m.network_used,
+                       'product-reading', m.product_reading)
                 state['passes'] = []
                 if op.get('via') == 'loop':
                     run.probes['via_cleaning_loop'] += 1
@@ -584,6 +837,11 @@ def execute(scenario, keep_trace=False):
                        'deleted', [short(h) for h in deleted], 'vanished', [short(h) for h in vanished],
                        'ret', ret if isinstance(ret, int) else repr(ret), 'after', used_after)
                 site = {'class': cls}
+                inputs = pre.input_class(cls)
+                if inputs:
+                    site['input'] = '+'.join(inputs)
+                    for name in inputs:
+                        run.probes[f'pass_with_{name}'] += 1
                 # -- reach probes
                 unlimited = cls == 'content' and limit == 0
                 if unlimited:
@@ -616,10 +874,12 @@ def execute(scenario, keep_trace=False):
                 for h in all_deleted:
                     if pre.is_own(h):
                         row = pre.rows.get(h)
+                        flag = 'set' if h not in pre.flag_lost else \
+                            'lost_in_recovery' if h in state['lost_in_recovery'] else 'lost'
                         return run.violation(
                             'C19.own_deleted',
                             f'{cls} pass deleted {short(h)}, a blob the user published (row before the pass: {row}; '
-                            f'is_mine flag {"lost" if h in pre.flag_lost else "set"})', **site)
+                            f'is_mine flag {flag})', flag=flag, **site)
                 for h in pre.rows:
                     if pre.is_own(h) and h in pre_files and h not in post_files:
                         return run.violation('C19.own_deleted', f'file of published blob {short(h)} disappeared during '
@@ -633,8 +893,9 @@ def execute(scenario, keep_trace=False):
                     return run.violation(
                         'C19.deleted_within_limit',
                         f'{cls} usage {used_max} MB <= limit {limit} MB but {len(all_deleted)} blob(s) deleted '
-                        f'({[(short(h), pre.rows.get(h, (None,))[0]) for h in all_deleted]}); bytes: content={pre.content} '
-                        f'own={pre.own} network={pre.network}', **site)
+                        f'({[(short(h), pre.rows.get(h, (None,))[0]) for h in all_deleted]}); bytes on disk: content='
+                        f'{pre.content} own={pre.own} (outside any stream {pre.own_unattached}) network={pre.network}; the '
+                        f'product reads (content+own, network) = {pre.product_reading} MB', **site)
                 # -- a second pass with nothing changed deletes nothing
                 if again and all_deleted:
                     return run.violation(
@@ -678,13 +939,18 @@ def execute(scenario, keep_trace=False):
                             'C19.still_over',
                             f'{cls} usage {used} MB > limit {limit} MB, removable blobs free {freeable} MB in the pass\'s '
                             f'accounting (excess {excess}), but after the pass usage is {used_after} MB; deleted '
-                            f'{[(short(h), pre.rows[h][0]) for h in deleted]}', **site)
+                            f'{[(short(h), pre.rows[h][0]) for h in deleted]}; the product read (content+own, network) = '
+                            f'{pre.product_reading} MB', **site)
                 else:
                     run.probes['removable_insufficient'] += 1
                 # -- minimality in the pass's own accounting
                 if deleted:
-                    before_last = sum(pre.mb(h) for h in deleted[:-1] if h in pre.rows)
-                    total = before_last + (pre.mb(deleted[-1]) if deleted[-1] in pre.rows else 0)
+                    freed, seen = [], set()
+                    for h in deleted:     # a hash listed twice frees its bytes once
+                        freed.append(pre.mb(h) if h in pre.rows and h not in seen else 0)
+                        seen.add(h)
+                    before_last = sum(freed[:-1])
+                    total = before_last + freed[-1]
                     if before_last >= excess:
                         return run.violation(
                             'C19.overfreed',
@@ -704,6 +970,8 @@ def execute(scenario, keep_trace=False):
                 kind = op.get('op')
                 if kind == 'restart':
                     await tracker.settle()
+                    if sm is not None:
+                        await sm.stop()
                     bm.stop()
                     await storage.close()
                     move_files(op, n)
@@ -737,6 +1005,8 @@ def execute(scenario, keep_trace=False):
                         break
                 if run.violations:
                     break
+            if sm is not None:
+                await sm.stop()
             bm.stop()
             await storage.close()
             return 'end'
@@ -753,6 +1023,21 @@ def execute(scenario, keep_trace=False):
                     os.rename(os.path.join(parked_dir, name), dst)
                     back += 1
             state['unparked'] = back > 0
+            lost = 0
+            if op.get('lose_sd'):
+                import random as _rnd
+                for sd in sorted({sd for _s, sd in be.db_snapshot(dirs.db_path)['stream']}):
+                    if op['lose_sd'] == 'own' and sd not in published:
+                        continue
+                    if op['lose_sd'] == 'some' and _rnd.Random(f"sd:{op.get('tag', 0)}:{sd}").random() >= 0.5:
+                        continue
+                    path = os.path.join(dirs.blobs, sd)
+                    if os.path.isfile(path):
+                        os.remove(path)
+                        lost += 1
+                if lost:
+                    run.faults['sd_blob_file_lost'] += lost
+                    run.probes['sd_blob_lost'] += 1
             park = op.get('park', 'none')
             away = 0
             if park != 'none':
@@ -767,7 +1052,7 @@ def execute(scenario, keep_trace=False):
             state['parked'] = away > 0
             if away:
                 run.faults['blob_files_away_for_one_start'] += 1
-            run.ev('restart', n, park, 'away', away, 'back', back)
+            run.ev('restart', n, park, 'away', away, 'back', back, 'sd-lost', lost)
 
         while True:
             loop = run.new_loop(max_steps=600_000)
